@@ -17,8 +17,10 @@ ST_EX = "engine/phases/stateful/_executor.py"
 # ---- reference languages, written from the property statement (not from the code) ---------------------------------
 # main thread: one start first, exactly one finish last; each phase opened and closed exactly once; a suite is opened and
 # closed inside its phase; ANY = an event produced by a worker thread and passed on (checked against the worker languages)
-UNIT_BODY = seq("SuiteStarted", star(ANY), opt("Interrupted"), "SuiteFinished", "PhaseFinished")
-STATEFUL_BODY = alt(seq("NonFatalError", "PhaseFinished"), seq(star(ANY), opt("Interrupted"), "PhaseFinished"))
+# the property does not bound how often an interruption is announced (a second Ctrl-C while the phase winds down is
+# a second interruption): `Interrupted*`, not `Interrupted?`, before the closing events
+UNIT_BODY = seq("SuiteStarted", star(ANY), star("Interrupted"), "SuiteFinished", "PhaseFinished")
+STATEFUL_BODY = alt(seq("NonFatalError", "PhaseFinished"), seq(star(ANY), star("Interrupted"), "PhaseFinished"))
 PHASE_BODY = alt("PhaseFinished", UNIT_BODY, STATEFUL_BODY)
 RUN = seq("EngineStarted", star(seq("PhaseStarted", PHASE_BODY)), opt("Interrupted"), "EngineFinished")
 # worker side: a scenario is closed after it was opened; only an interruption may leave an announced scenario unclosed
@@ -376,5 +378,60 @@ def r9_probe_total(chk: Check) -> None:
                       send.loc(net[0]))
 
 
+def r10_caught_interrupt_is_reported(chk: Check) -> None:
+    chk.rule("C11.R10", "CAUGHT-INTERRUPT-IS-REPORTED: every `except KeyboardInterrupt` in the phase executors that does not re-raise makes the interruption visible in the stream - it yields `Interrupted` itself, or records the fact (a flag / status) that the executor later turns into an `Interrupted` event; swallowing it silently ends the phase with its ordinary status while the stop flag makes the remaining phases vanish", floor=3)
+    P = chk.project
+    from ..cfg import handler_classes
+    from ..loader import ancestors
+
+    def yields_interrupted(node: ast.AST) -> list[ast.AST]:
+        out: list[ast.AST] = [y for y in ast.walk(node) if isinstance(y, ast.Yield) and isinstance(y.value, ast.Call) and last_attr(y.value) == "Interrupted"]
+        # worker / state-machine threads report through the event queue
+        out += [c for c in ast.walk(node) if isinstance(c, ast.Call) and last_attr(c) == "put" and c.args and isinstance(c.args[0], ast.Call) and last_attr(c.args[0]) == "Interrupted"]
+        return out
+
+    gens = [f for f in P.all_functions() if not isinstance(f.node, ast.Lambda) and f.module.relpath.startswith("engine/") and yields_interrupted(f.node)]
+    n = 0
+    for fn in P.all_functions():
+        if isinstance(fn.node, ast.Lambda) or not fn.module.relpath.startswith("engine/phases/"):
+            continue
+        for h in (x for x in walk_body(fn.node) if isinstance(x, ast.ExceptHandler)):
+            if "KeyboardInterrupt" not in [c.rsplit(".", 1)[-1] for c in handler_classes(h)]:
+                continue
+            n += 1
+            from ..loader import parent as _parent
+
+            tr_ = _parent(h)
+            guarded = unparse(tr_.body[0], 40).split("\n")[0] if isinstance(tr_, ast.Try) and tr_.body else "?"
+            construct = f"{fn.name}: the interrupt caught around `{guarded}` is reported"
+            if any(isinstance(x, ast.Raise) for s_ in h.body for x in ast.walk(s_)):
+                chk.ok("C11.R10", fn, construct, "re-raised", fn.loc(h))
+                continue
+            if any(yields_interrupted(s_) for s_ in h.body):
+                chk.ok("C11.R10", fn, construct, "yields Interrupted", fn.loc(h))
+                continue
+            # recorded facts: `self.<flag> = True` / `<local> = True|Status.INTERRUPTED`
+            attrs = {t.attr for s_ in h.body for a_ in ast.walk(s_) if isinstance(a_, ast.Assign) for t in a_.targets if isinstance(t, ast.Attribute)}
+            locs = {t.id for s_ in h.body for a_ in ast.walk(s_) if isinstance(a_, ast.Assign) for t in a_.targets if isinstance(t, ast.Name)}
+            reported = False
+            for g_ in gens:
+                gg = cfg_of(g_)
+                for y in yields_interrupted(g_.node):
+                    facts = known_conditions(gg, gg.stmt_nodes_containing(y))
+                    keys = " ".join(facts)
+                    if any(f".{a_}" in keys for a_ in attrs):
+                        reported = True
+                    if g_ is fn and any(l_ in keys for l_ in locs) and getattr(y, "lineno", 0) > h.lineno:
+                        reported = True
+            if reported:
+                chk.ok("C11.R10", fn, construct, "recorded and turned into an Interrupted event by the executor", fn.loc(h))
+            else:
+                chk.violation("C11.R10", fn, construct,
+                              "the handler neither re-raises nor yields `Interrupted`, and nothing it records is later turned into that event: a Ctrl-C that lands here is swallowed - the phase closes with its ordinary status (SUCCESS), no `Interrupted` is emitted, and because the stop flag is set the remaining phases silently disappear",
+                              fn.loc(h))
+    if n < 3:
+        chk.undecided("C11.R10", "<discovery>", f"handlers={n}", "fewer KeyboardInterrupt handlers than confirmed by hand")
+
+
 def rules(tier: str) -> list:  # type: ignore[type-arg]
-    return [r1r2_grammar, r2b_state_machine_hooks, r3_ids, r4_status, r5_phase_dispatch, r7_drain, r8_consumer_total_over_statuses, r9_probe_total]
+    return [r1r2_grammar, r2b_state_machine_hooks, r3_ids, r4_status, r5_phase_dispatch, r7_drain, r8_consumer_total_over_statuses, r9_probe_total, r10_caught_interrupt_is_reported]
